@@ -714,6 +714,25 @@ func boolPhiShape(ph *ssa.Phi) (rest int, k bool, ok bool) {
 // Implied lists the atoms that necessarily have a known truth value when the
 // boolean value v equals val (conjunctive consequences only).
 func Implied(v ssa.Value, val bool) []Atom {
+	out := impliedShape(v, val)
+	// the truth table of the condition sees through any nesting of !, &&, || and boolean
+	// temporaries (results of inlined helpers); its consequences are added to the shape-based ones
+	if more, ok := impliedByTable(v, val); ok {
+		have := map[Atom]bool{}
+		for _, a := range out {
+			have[a] = true
+		}
+		for _, a := range more {
+			if !have[a] {
+				have[a] = true
+				out = append(out, a)
+			}
+		}
+	}
+	return out
+}
+
+func impliedShape(v ssa.Value, val bool) []Atom {
 	var out []Atom
 	seen := map[ssa.Value]bool{}
 	var rec func(v ssa.Value, val bool, d int)
